@@ -656,4 +656,28 @@ theorem intersect_eq_error {coarse fine : Geom α} {cells : List Int} {e : Err}
 
 end Unfold
 
+/-! ### guards of `c_voronoi` / `grid.voronoi` -/
+
+section VoronoiGuards
+variable {α : Type} [Field α] [LinearOrder α] [IsStrictOrderedRing α] [FloorRing α]
+
+theorem cVoronoi_unfold (dist : α → α → α) (g : Geom α) (cells : List Int) (pts : List (α × α)) :
+    cVoronoi dist g cells pts =
+      if pts = [] then .error .noPoints
+      else if g.nrows < 1 ∨ g.ncols < 1 then .error .badGrid
+      else if cells = [] then .ok (pts.map fun _ => none)
+      else .ok ((counts dist g cells pts).map fun w => some (w / (cells.length : α))) := by
+  unfold cVoronoi
+  have e1 : pts.length < 1 ↔ pts = [] := by
+    cases pts <;> simp
+  have e2 : cells.length = 0 ↔ cells = [] := List.length_eq_zero_iff
+  simp only [e1, e2, ofInt_eq, Int.cast_natCast]
+
+theorem rowsToPts_map (pts : List (α × α)) : rowsToPts (pts.map fun p => [p.1, p.2]) = pts := by
+  induction pts with
+  | nil => rfl
+  | cons p t ih => simp [rowsToPts, ih]
+
+end VoronoiGuards
+
 end HydroVerif.C16
